@@ -79,3 +79,36 @@ Example C16_example :
               {|ec:=false;et:=true;ex:=true|} ] in
   class_sets (assignments_of es) = [[1]; [2]; [3]; [4]; [5]; [0]; [6]].
 Proof. vm_compute. reflexivity. Qed.
+
+(* ---- get_eligible_assignments itself, regenerated from the source on every run (gen/Gen_EligAssign.v) over a frame of
+   (ID, flags) rows: `df.loc[geos]`, `df.reset_index()` and `set(df.index[df[col] == 1])` read as in model/EligFrame.v *)
+From Coq Require Import ZArith.
+From MM Require Import model.EligFrame gen.Gen_EligAssign proofs.EligAssignBridge.
+(* indices=True: the sets handed to GeoAssignments are the model's position sets of the rows of the list, in its order *)
+Theorem C16_translated_index_mode_is_the_model :
+  forall data g gs rows, loc data (g :: gs) = Some rows ->
+    let a := assignments_of (map snd rows) in
+    gen_get_eligible_assignments data (Some (g :: gs)) true = GA (map Z.of_nat (a_c a)) (map Z.of_nat (a_t a)) (map Z.of_nat (a_x a)).
+Proof. exact gen_index_mode_is_assignments_of. Qed.
+(* indices=False: an ID is in a set iff it was asked for, is in the table and has the flag *)
+Theorem C16_translated_id_mode :
+  forall data g gs rows, loc data (g :: gs) = Some rows ->
+    gen_get_eligible_assignments data (Some (g :: gs)) false = GA (labels_where ec rows) (labels_where et rows) (labels_where ex rows).
+Proof. exact gen_id_mode. Qed.
+Theorem C16_translated_id_mode_membership :
+  forall data f rows geos g, loc data geos = Some rows ->
+    In g (labels_where f rows) <-> In g geos /\ exists e, lookup data g = Some e /\ f e = true.
+Proof. exact gen_id_mode_membership. Qed.
+(* no list or an empty list: the whole table by ID; with indices=True a ValueError; an unknown ID: KeyError exactly then *)
+Theorem C16_translated_all_geos :
+  forall data geos, truthy geos = false ->
+    gen_get_eligible_assignments data geos false = GA (labels_where ec data) (labels_where et data) (labels_where ex data) /\
+    gen_get_eligible_assignments data geos true = GAValueError.
+Proof. exact gen_all_geos. Qed.
+Theorem C16_translated_unknown_geo_is_a_key_error :
+  forall data g gs indices,
+    gen_get_eligible_assignments data (Some (g :: gs)) indices = GAKeyError <-> exists g', In g' (g :: gs) /\ lookup data g' = None.
+Proof. exact gen_key_error_iff. Qed.
+Print Assumptions C16_translated_index_mode_is_the_model.
+Print Assumptions C16_translated_id_mode_membership.
+Print Assumptions C16_translated_unknown_geo_is_a_key_error.
